@@ -191,6 +191,8 @@ SelectedIsMin == pc = "selected" => /\ Len(costs) = NK /\ bestk \in 1..NK
 (*         (numbers as the strings of their exact decimal representation)  *)
 (*   bitsA[j], bitsB[j]  bit patterns (hex) of the returned centre of      *)
 (*         module j in two independent executions on equal inputs          *)
+(*   bitsX the same for an execution in a separate, freshly forked process *)
+(*         (empty if the observation was not repeated there)               *)
 (* "Not moved" is judged to 1e-9 of the die size (1 unit): the code        *)
 (* recentres by -W/2 and +W/2, which may change the last bit.              *)
 (***************************************************************************)
@@ -210,7 +212,9 @@ JudgeRun(o) ==
     same_areas      |-> o.sig1.areas = o.sig0.areas,                                            \*  same modules, areas,
     same_rectangles |-> o.sig1.rects = o.sig0.rects,                                            \*  rectangles
     same_nets       |-> o.sig1.nets = o.sig0.nets,                                              \*  and nets"
-    deterministic   |-> o.bitsA = o.bitsB ]                                                     \* "it is deterministic"
+    deterministic   |-> o.bitsA = o.bitsB,                                                      \* "it is deterministic":
+    \* ... also across processes (bitsX = <<>>: this observation was not repeated in another process)
+    deterministic_across_processes |-> o.bitsX = <<>> \/ o.bitsX = o.bitsA ]
 
 \* A selection observation `s` (one call of force_algorithm seen through a wrapper of the layout function):
 \*   tried  <<kappa * 1000, cost, layout, rank>> for every spring constant it tried, in order; cost = the library's
